@@ -49,7 +49,7 @@ type CorrectionOptions struct {
 // document. Whether they suit a given invoice is decided when correcting it.
 func (o *CorrectionOptions) Validate() error {
 	return validation.ValidateStruct(o,
-		validation.Field(&o.Type),
+		validation.Field(&o.Type, validation.Required),
 		validation.Field(&o.IssueDate),
 		validation.Field(&o.Series),
 		validation.Field(&o.Stamps),
